@@ -15,23 +15,29 @@ if os.environ.get("C06_PINNED"):        # only for testing the fix patches in a 
     PINNED = tuple(os.environ["C06_PINNED"].split(","))
 
 CLAIM = dict(cat="proof", design="§3 C06, §8 D6/D9",
-   text="One Coq model (generic over the scalar type) of compute_ionization_state_hydrogen, the coupled H/He fixed-point loop "
-        "(fuelled, abort explicit), the coolant normalisations of compute_ionization_states_metals, the per-cell "
-        "calculate_ionization_state and the control logic of TemperatureCalculator::calculate_temperature (cooling/heating "
-        "balance = arbitrary oracle). Over R: the hydrogen-only neutral fraction solves n*alpha*(1-x)^2 = J*x, lies in (0,1), is strictly "
-        "decreasing in J and increasing in n*alpha inside each branch, series-branch defect <= 2/C, range [1e-14,1]; every coolant "
-        "fraction is in [0,1] and the tracked stages of an element sum to <= 1 when ne > 0 and the recombination rates are > 0; one H/He "
-        "iteration maps (0,1]x[0,1] into (0,1)x(0,1] when C_H > 0; for EVERY balance oracle the returned temperature is 500 K or in "
-        "[T_min,30000] after <= maxit iterations (also proved for binary64 incl. NaN: result is never NaN). Binary64: floor/NaN "
-        "behaviour of the hydrogen function for all doubles; REFUTED (vm_compute witness, replayed on the real class): for 0 < jH < 1e-20 "
-        "with helium the cell function yields NaN coolant fractions (D6). The extracted binary64 instance is compared bit for bit with "
-        "the real functions (compiled with -fno-builtin -ffp-contract=off) on generated inputs on every run.",
-   note="Trusted: Coq kernel + standard-library real-number axioms (reported), extraction (ExtrOcamlBasic/ExtrOCamlFloats) and OCaml/glibc "
-        "libm for the correspondence only. Partial: theorems over R idealise rounding (the binary64 hydrogen function loses all accuracy "
-        "by cancellation for 1e8 < J/(n alpha) < 4e10: D9, measured against an exact rational reference on every run); upper bound <= 1 "
-        "of the hydrogen function is proved over R only; `never aborts within 20 iterations` and ne > 0 after the H/He loop are NOT proved: "
-        "EXPLORATION by a dense sweep of the real function (thorough tier). Rates, cross sections and the cooling function are oracles (C18).",
-   technique="generic-scalar Coq model (R + PrimFloat instances), nra/field proofs, vm_compute refutation witness, extracted-model differential correspondence with an oracle subprocess")
+   text="One Coq model (generic over the scalar type; instantiated with R for theorems and with PrimFloat binary64 for execution) of "
+        "compute_ionization_state_hydrogen, the coupled H/He fixed-point loop (fuelled, abort explicit), compute_ionization_states_metals, the "
+        "per-cell calculate_ionization_state and the control logic of TemperatureCalculator::calculate_temperature (cooling/heating balance = "
+        "arbitrary oracle). Over R: the hydrogen-only neutral fraction solves n*alpha*(1-x)^2 = J*x, lies in (0,1), is strictly decreasing in J "
+        "and increasing in n*alpha inside each branch (a 5e-11 seam between the branches is exhibited), series-branch defect <= 2x, range "
+        "[1e-14,1]; every coolant fraction is in [0,1] and the tracked stages of an element sum to <= 1 when ne > 0 and the recombination rates "
+        "are > 0; one H/He iteration maps (0,1]x(-inf,1] into (0,1)x(0,1] when C_H > 0; for EVERY balance oracle the returned temperature is "
+        "500 K or in [T_min,30000] after <= maxit iterations. Binary64 (all doubles, NaN included): hydrogen result is a number >= 1e-14, "
+        "returned temperature is a number <= 30000. Refuted on the pinned variants with vm_compute witnesses replayed on the real code: NaN "
+        "coolant fractions for 0 < jH < 1e-20 (D6) and loss of all digits by cancellation in the hydrogen-only root (D9); both repaired in "
+        "/repo (model variant chosen by PINNED), the repaired variants are proved equal over R / finite on the witness. The extracted binary64 "
+        "instance is compared bit for bit with the real functions (compiled with -fno-builtin -ffp-contract=off) on generated inputs on every "
+        "run, and an independent property oracle (range, stage sums, temperature bounds, no abort, exact-rational balance root, monotone "
+        "ladders) is evaluated on every output of the real code.",
+   note="Trusted: Coq kernel + standard-library real-number/classical axioms and the PrimFloat axioms (reported per theorem), extraction "
+        "(ExtrOcamlBasic/ExtrOCamlFloats) and OCaml/glibc libm for the correspondence only. Partial: theorems over R idealise rounding; the "
+        "bound <= 1 of the hydrogen function is proved over R only; C_H > 0 is a hypothesis of the H/He step theorem; `never aborts within 20 "
+        "iterations' and `fractions stay in [0,1]' for the coupled loop are EXPLORATION (regular sweep of the real function over the stated "
+        "domain: 492k points thorough, no abort, <= 12 iterations, largest excursion he0-1 = 2.6e-9; for helium abundance >= 0.8 with hard "
+        "spectra the loop returns h0 > 1 or NaN - outside the generators' domain AHe <= 0.6). Range tolerance 1e-8. cmac_assert is compiled "
+        "out and not modelled. Rates, cross sections and the cooling function are oracles (C18). Note (not a violation, inside the bounds): "
+        "with 0 < jH < 1e-20 calculate_temperature returns 30000 K for a fully neutral cell (hooks/c06_fix_d6t.patch, not applied).",
+   technique="generic-scalar Coq model (R + PrimFloat instances), nra/field proofs, FloatAxioms case analysis, vm_compute refutation witnesses, extracted-model differential correspondence with an oracle subprocess, exact-rational reference")
 
 HX = "%016x"
 
@@ -529,7 +535,7 @@ def run(ck):
     groups = {}
     for (k, kind), lst in fails.items():
         for e in lst:
-            agrees = (e[0] < len(out_m) and e[0] not in mis_all) if okm else None
+            agrees = all(i < len(out_m) and i not in mis_all for i in (e[0],) + tuple(e[2:3])) if okm else None
             groups.setdefault((k, kind, agrees), []).append(e)
     for (k, kind, agrees), lst in sorted(groups.items(), key=lambda kv: (kv[0][0], kv[0][1], str(kv[0][2]))):
         if kind in ("balance", "denormal"):      # show the most ordinary failing input: smallest J/(n alpha)
